@@ -349,3 +349,44 @@ void pl_lemma_wd_add(void)
 }
 void pl_lemma_wd_cong(void) { Z a, b; __CPROVER_assume(lemma_wd_cong_REQ(a, b)); __CPROVER_assert(lemma_wd_cong_ENS(a, b), "lemma_wd_cong.ENS"); }
 #pragma CPROVER check pop
+
+/* lemma_dd: the calendar reasoning behind impl::day_difference, kept out of the function's own queries */
+#define DD_SIDE(y, m, d) \
+  REVEAL_DAYORD(y, m, d); REVEAL_ORDI(DD_E(y), m, d); \
+  USE(lemma_ord_reduce_REQ(y, m, d), lemma_ord_reduce_ENS(y, m, d), "ord_reduce"); \
+  USE(lemma_I_anchor_REQ(DD_E(y), m, d), lemma_I_anchor_ENS(DD_E(y), m, d), "I_anchor"); \
+  USE(lemma_cong_REQ((Z)((y) % 400), (Z)DD_E(y), m, d), lemma_cong_ENS((Z)((y) % 400), (Z)DD_E(y), m, d), "cong"); \
+  STEP(DAYORD(y, m, d) == ORD((Z)((y) % 400), m, d) + (Z)146097 * (Z)((y) / 400), "ordinal reduced to the cycle"); \
+  STEP(ORD((Z)((y) % 400), m, d) == (Z)ORDI(DD_E(y), m, d), "cycle ordinal in 32 bits"); \
+  STEP(DAYORD(y, m, d) == (Z)ORDI(DD_E(y), m, d) + (Z)146097 * (Z)((y) / 400), "ordinal = cycle ordinal + 146097 per cycle")
+void pl_lemma_dd(void)
+{
+  year_t y1, y2; int m1, d1, m2, d2;
+  __CPROVER_assume(lemma_dd_REQ(y1, m1, d1, y2, m2, d2));
+  DD_SIDE(y1, m1, d1);
+  DD_SIDE(y2, m2, d2);
+  STEP(-292194 < (Z)ORDI(DD_E(y1), m1, d1) - (Z)ORDI(DD_E(y2), m2, d2) && (Z)ORDI(DD_E(y1), m1, d1) - (Z)ORDI(DD_E(y2), m2, d2) < 292194, "two dates of the cycle window are less than two cycles apart");
+  STEP(DAYORD(y1, m1, d1) - DAYORD(y2, m2, d2) == (Z)146097 * ((Z)(y1 / 400) - (Z)(y2 / 400)) + (Z)ORDI(DD_E(y1), m1, d1) - (Z)ORDI(DD_E(y2), m2, d2), "distance = cycles + window distance");
+  USE(lemma_dd3_REQ((Z)(y1 / 400) - (Z)(y2 / 400), (Z)ORDI(DD_E(y1), m1, d1) - (Z)ORDI(DD_E(y2), m2, d2)), lemma_dd3_ENS((Z)(y1 / 400) - (Z)(y2 / 400), (Z)ORDI(DD_E(y1), m1, d1) - (Z)ORDI(DD_E(y2), m2, d2)), "dd3");
+  __CPROVER_assert(lemma_dd_ENS(y1, m1, d1, y2, m2, d2), "lemma_dd.ENS");
+}
+
+void pl_lemma_c4(void)
+{
+  year_t y1, y2, qa, qb; diff_t a, b;
+  __CPROVER_assume(lemma_c4_REQ(y1, a, y2, b, qa, qb));
+  __CPROVER_assert(lemma_c4_ENS(y1, a, y2, b, qa, qb), "lemma_c4.ENS");
+}
+void pl_lemma_q400(void)
+{
+  diff_t x; Z k;
+  __CPROVER_assume(lemma_q400_REQ(x, k));
+  __CPROVER_assert(lemma_q400_ENS(x, k), "lemma_q400.ENS");
+}
+
+void pl_lemma_dd3(void)
+{
+  Z qd, od;
+  __CPROVER_assume(lemma_dd3_REQ(qd, od));
+  __CPROVER_assert(lemma_dd3_ENS(qd, od), "lemma_dd3.ENS");
+}
